@@ -98,6 +98,12 @@ impl Import {
         let path = Path::new(src);
         let attempted_path = Path::new(str_part);
         let path = path.parent().context("no parent")?.join(attempted_path);
+        // `./m` and `m` are the same module: the path is the module's identity at
+        // compile time and in the interpreter's module cache, so drop `.` segments.
+        let path = path
+            .components()
+            .filter(|component| !matches!(component, std::path::Component::CurDir))
+            .collect();
         Ok(path)
     }
 }
